@@ -158,6 +158,10 @@ fn birkhoff_run(cx: &mut Cx, rng: &mut impl RngCore, params: Vec<(Scalar, usize)
     let got_s = match &got { Ok(b) => format!("ok:{}", list(b)), Err(_) => "panic".into() };
     if idx < 1 { cx.rep.sample(json!({"stream": stream, "request": req, "impl": got_s, "model": model})); }
     if got_s != model { cx.rep.diverge(Failure { stream: stream.into(), index: idx, request: vec![req.clone()], impl_out: got_s.clone(), model_out: model.clone(), key: "math:birkhoff:model".into(), what: "birkhoff_coeffs differs from the model".into() }); }
+    // Hermite patterns (every point with ranks 0..multiplicity-1) and all-zero ranks are admissible BY CONSTRUCTION: a panic there is a failure
+    if got.is_err() && (stream == "birkhoff-orders" || stream == "lagrange") {
+        cx.rep.pred_fail(Failure { stream: stream.into(), index: idx, request: vec![req.clone()], impl_out: "panic".into(), model_out: "coefficients".into(), key: "math:birkhoff-panic-on-admissible-set".into(), what: "birkhoff_coeffs panics on an admissible (Hermite) parameter set".into() });
+    }
     if let Ok(b) = &got {
         // predicate 1: the interpolation identity for a random polynomial of degree < n, independent derivative (driver birkcheck)
         let f: Vec<Scalar> = (0..n).map(|_| Scalar::random(&mut *rng)).collect();
